@@ -100,9 +100,13 @@ fn gen_what(r: &mut Prng, types: &[usize], pool: &mut Vec<crate::subjects::Amt>)
                 per = amt::simple();
             }
             if r.chance(1, 3) {
+                // a multiple of one, in any of its representations (1, 1.0, 1.00 …)
                 per = match per {
                     crate::subjects::Amt::F(_) => crate::subjects::Amt::F(1f64.to_bits()),
-                    crate::subjects::Amt::D(..) => crate::subjects::Amt::D(1, 0),
+                    crate::subjects::Amt::D(..) => {
+                        let f = r.below(4) as u8;
+                        crate::subjects::Amt::D(10i64.pow(f as u32), f)
+                    }
                 };
                 if RATES[pair].per_is_unitless {
                     per = amt::simple();
